@@ -64,7 +64,10 @@ def class_defs(pv, ns=None):
         if i % 2 == 1:
             fields.append(['f%db' % i, U])
         d = {'n': 'C%d' % i, 'fields': fields}
-        if ns:
+        if ns == 'split':
+            # the classes of one tree alternate between two namespaces of their own
+            d['ns'] = 'urn:vf:shapes' if i % 2 == 0 else 'urn:vf:shapes2'
+        elif ns:
             d['ns'] = ns
         if p is not None:
             d['base'] = 'C%d' % p
@@ -109,6 +112,26 @@ def instance(built_fields, cname, salt):
     for k, (fn, ft) in enumerate(built_fields(cname)):
         vals[fn] = (salt * 10 + k) if ft[1] == 'Integer' else 's%d_%d' % (salt, k)
     return Obj(cname, **vals)
+
+
+def rebind_type_prefixes(req):
+    """an equivalent document in which every xsi:type value is spelled r:Name with xmlns:r declared on that very element"""
+    import re
+    root = etree.fromstring(req)
+    nsmap = {}
+    for e in root.iter():
+        if isinstance(e.tag, str):
+            nsmap.update({k: v for k, v in e.nsmap.items() if k})
+
+    def repl(mo):
+        pfx, local = mo.group(1).decode(), mo.group(2).decode()
+        if pfx not in nsmap:
+            return mo.group(0)
+        return ('xmlns:r="%s" xsi:type="r:%s"' % (nsmap[pfx], local)).encode()
+    xsi = [k for k, v in nsmap.items() if v == xsdcodec.XSI]
+    if not xsi:
+        return req
+    return re.sub(('%s:type="([A-Za-z0-9_.-]+):([^"]+)"' % xsi[0]).encode(), repl, req).replace(('%s:type="r:' % xsi[0]).encode(), b'xsi:type="r:') if xsi[0] == 'xsi' else req
 
 
 def truncate(b, v, declared):
@@ -239,7 +262,9 @@ def run_shard(shard, only=None):
             cases.append(('arr', 'arr', [l], l, R1 + '+' + R2))
         # (MessagePack has two string families: text keys, and the bin keys Spyne's own writer emits - class
         # markers included)
-        schemes = ('plain', 'adversarial') if fam == 'xml' else ('plain', 'bin-keys') if proto == 'msgpack' else ('plain',)
+        # ('rebind': every element that carries a type marker declares the prefix of its marker itself, always under the same
+        # prefix name - one name, bound to different namespaces within one document)
+        schemes = ('plain', 'adversarial', 'rebind') if fam == 'xml' else ('plain', 'bin-keys') if proto == 'msgpack' else ('plain',)
         bin_codec = dictcodec.DictCodec(b, h.codec.wire, False, 'dict', poly, text_keys=False) if proto == 'msgpack' else None
         for (pos, mname, args, ret, rlabel), scheme in itertools.product(cases, schemes):
             m = b.methods[mname]
@@ -248,7 +273,7 @@ def run_shard(shard, only=None):
                 continue
             substituted = rlabel.replace('+', '') != D and any(x != D for x in rlabel.split('+'))
             sitebase = '%s|poly=%s|%s|%s%s%s' % (proto, 'on' if poly else 'off', pos, 'subclass' if substituted else 'same', '|after-subclass-call' if warm else '',
-                                                 ('|client-prefixes' if scheme == 'adversarial' else '|bin-keys' if scheme == 'bin-keys' else '') + ('|classes-shared-with-a-%s-application-used-before' % (
+                                                 ('|client-prefixes' if scheme == 'adversarial' else '|bin-keys' if scheme == 'bin-keys' else '|one-prefix-rebound' if scheme == 'rebind' else '') + ('|classes-shared-with-a-%s-application-used-before' % (
                                                      'plain' if poly else 'polymorphic') if share and poly != polys[0] else ''))
             casedoc = {'shard': shard, 'only': key}
 
@@ -261,11 +286,15 @@ def run_shard(shard, only=None):
             try:
                 if fam == 'xml':
                     # (also with prefixes of the client's own choosing: tns / xs / sN bound to decoy namespaces)
-                    xsdcodec.PREFIX_SCHEME[0] = scheme
+                    xsdcodec.PREFIX_SCHEME[0] = scheme if scheme != 'rebind' else 'plain'
+                    xsdcodec.ALWAYS_TYPE[0] = scheme == 'rebind'
                     try:
                         req = xsdcodec.build_request(h.codec, m, args, proto)
                     finally:
                         xsdcodec.PREFIX_SCHEME[0] = 'plain'
+                        xsdcodec.ALWAYS_TYPE[0] = False
+                    if scheme == 'rebind':
+                        req = rebind_type_prefixes(req)
                 else:
                     req = (bin_codec if scheme == 'bin-keys' else h.codec).request_bytes(m, args)
             except (xsdcodec.SchemaError, xsdcodec.NotDenotable) as e:
